@@ -1,5 +1,88 @@
 import Glas.Model.Project
-/-! C17: theorems being merged (placeholder) -/
+import Glas.Lemmas.Project
+/-!
+# C17 — modules and packages resolve according to the project layout (path functions)
+-/
 namespace Glas.Props.C17
-theorem placeholder : (1 : Nat) = 1 := rfl
+open Glas.Project
+
+/-- a module file `<root>/<src|test|…>/<segs…>/<n>.gleam` is importable as `segs…/n` -/
+theorem moduleName_spec (root : Path) (d : Comp) (segs : List Comp) (n : Comp) (hn : n ≠ []) :
+    moduleName root (root ++ [d] ++ segs ++ [n ++ gleamExt]) = some (joinSlash (segs ++ [n])) := by
+  have hpath : root ++ [d] ++ segs ++ [n ++ gleamExt] = root ++ ([d] ++ segs ++ [n ++ gleamExt]) := by
+    simp
+  rw [hpath]
+  unfold moduleName
+  simp only [isPrefix_append, Bool.not_true, Bool.false_eq_true, if_false, List.drop_left]
+  simp [stripGleam_append n hn]
+
+/-- a file whose last component is not `<stem>.gleam` is no module -/
+theorem moduleName_other_ext (root rel : Path) (last : Comp) (h : stripGleam last = none) :
+    moduleName root (root ++ rel ++ [last]) = none := by
+  have hpath : root ++ rel ++ [last] = root ++ (rel ++ [last]) := by simp
+  rw [hpath]
+  unfold moduleName
+  simp only [isPrefix_append, Bool.not_true, Bool.false_eq_true, if_false, List.drop_left]
+  simp [h]
+
+/-- **each file belongs to the innermost package root containing it**: the assigned root is one of
+the roots, a prefix of the path, and no root that is a prefix is longer -/
+theorem assignRoot_innermost (roots : List Path) (path r : Path) (h : assignRoot roots path = some r) :
+    r ∈ roots ∧ isPrefix r path = true ∧ ∀ r' ∈ roots, isPrefix r' path = true → r'.length ≤ r.length := by
+  rw [assignRoot_eq] at h
+  obtain ⟨hm, hall, _⟩ := foldl_pick_inv _ _ _ h
+  have hmem : r ∈ roots.filter (fun r => isPrefix r path) := by
+    rcases hm with hm | hm
+    · exact hm
+    · cases hm
+  rw [List.mem_filter] at hmem
+  refine ⟨hmem.1, hmem.2, ?_⟩
+  intro r' hr' hp'
+  exact hall r' (List.mem_filter.2 ⟨hr', hp'⟩)
+
+/-- a file under some root is always assigned a root -/
+theorem assignRoot_total (roots : List Path) (path r : Path) (hr : r ∈ roots) (hp : isPrefix r path = true) :
+    ∃ r', assignRoot roots path = some r' := by
+  rw [assignRoot_eq]
+  have hmem : r ∈ roots.filter (fun r => isPrefix r path) := List.mem_filter.2 ⟨hr, hp⟩
+  cases hc : roots.filter (fun r => isPrefix r path) with
+  | nil => rw [hc] at hmem; cases hmem
+  | cons c cs =>
+    simp only [List.foldl_cons, pick]
+    exact foldl_pick_some cs c
+
+/-- packages under `build/packages/<name>` are external, everything else is local -/
+theorem isLocal_iff (root : Path) :
+    isLocal root = false ↔ ∃ pre name, root = pre ++ ["build".toList, "packages".toList, name] := by
+  unfold isLocal
+  constructor
+  · intro h
+    split at h
+    · rename_i name p g rest hrev
+      have hroot : root = rest.reverse ++ [g, p, name] := by
+        have := congrArg List.reverse hrev
+        simpa using this
+      simp only [Bool.not_eq_false', Bool.and_eq_true, beq_iff_eq] at h
+      obtain ⟨rfl, rfl⟩ := h
+      exact ⟨rest.reverse, name, hroot⟩
+    · cases h
+  · rintro ⟨pre, name, rfl⟩
+    simp
+
+/-- a free-standing file (no `gleam.toml` in any ancestor directory) has no project parent -/
+theorem free_standing_none (path : Path) : findProjectParent (fun _ => false) path = none := by
+  unfold findProjectParent
+  exact findParentLoop_false_none _ _ _
+
+/-- the project parent, when found, is an ancestor directory that contains a `gleam.toml` -/
+theorem projectParent_has_toml (hasToml : Path → Bool) (path r : Path)
+    (h : findProjectParent hasToml path = some r) : hasToml r = true ∧ isPrefix r path = true := by
+  unfold findProjectParent at h
+  exact findParentLoop_spec hasToml path _ path _ r (isPrefix_refl path) h
+
+example : moduleName ["w".toList, "p".toList] ["w".toList, "p".toList, "src".toList, "a".toList, "b.gleam".toList] = some "a/b".toList := by decide
+example : assignRoot [["w".toList, "p".toList], ["w".toList, "p".toList, "build".toList, "packages".toList, "d".toList]]
+    ["w".toList, "p".toList, "build".toList, "packages".toList, "d".toList, "src".toList, "x.gleam".toList]
+    = some ["w".toList, "p".toList, "build".toList, "packages".toList, "d".toList] := by decide
+
 end Glas.Props.C17
